@@ -37,7 +37,13 @@ def drivers(tier):
                 # three overlapping waits requested in any order
                 'timing-3-lean': (CoroDriver('timing-3-lean', lean,
                                              dts=(0.5, 1), max_started=3),
-                                  dict(max_states=400000, time_budget=300))}
+                                  dict(max_states=400000, time_budget=300)),
+                # sleepers killed / restarted from outside while others wait
+                'timing-kill': (CoroDriver('timing-kill', [
+                    script_from_yields(seq) for seq in
+                    ((1,), (2,), (1, None), (None, 1))],
+                    dts=(1, 2), max_started=3, outside_kill=True),
+                    dict(max_states=400000, time_budget=300))}
     fam = scripts((None, 0, -1, 0.5, 1, 2), 3, spawn=((), (1,), (None, 2)))
     fam3 = scripts((None, -1, 0.5, 1, 2), 2, spawn=((1,),))
     return {
@@ -47,6 +53,11 @@ def drivers(tier):
         'timing-3': (CoroDriver('timing-3', fam3, dts=(0, 0.5, 1, 2),
                                 max_started=3),
                      dict(max_states=3000000, time_budget=3000)),
+        'timing-kill': (CoroDriver('timing-kill', [
+            script_from_yields(seq) for seq in
+            ((0.5,), (1,), (2,), (1, None), (None, 1), (None, 2), (1, 1))],
+            dts=(0.5, 1, 2), max_started=3, outside_kill=True),
+            dict(max_states=3000000, time_budget=3000)),
     }
 
 
@@ -58,6 +69,9 @@ def run(tier, rep):
         'a coroutine started from inside a body may run zero times or once '
         'in that same frame; order among coroutines woken together is free',
         'bodies that raise and negative dt are outside the alphabet',
+        'the timing-kill part kills and restarts sleepers from outside so '
+        'that the wake-up claim is also checked "whatever other coroutines '
+        'are waiting for" when the wait heap is edited',
     ]
     rep.require_hits(pause=1, wake_up=1, wake_up_next_to_runnable=1,
                      inbody_spawn=1, order_checked=1)
